@@ -21,7 +21,7 @@ func (g *pgen) feat(f string) { g.feats[f] = true }
 var plainChars = []string{"a", "b", "c", "a", "b", "c", "a", "b", "-", "A", "B", "1", "_", " "}
 
 var otherEscapes = []string{`\x61`, `\x62`, `a`, `c`, `\cJ`, `\cj`, `\0`, `\t`, `\v`, `\f`, `\r`, `\x0A`, `\u000a`,
-	`\.`, `\-`, `\*`, `\/`, `\$`, `\|`, `\(`, `\)`, `\[`, `\]`, `\{`, `\}`, `\\`, `\^`, `\+`, `\?`, `\x2d`, `é`, `\xE9`, `\cI`}
+	`\.`, `\-`, `\*`, `\/`, `\$`, `\|`, `\(`, `\)`, `\[`, `\]`, `\{`, `\}`, `\\`, `\^`, `\+`, `\?`, `\x2d`, `é`, `\xE9`, `\cI`, `\cP`, `\cp`, `\cZ`, `\cA`, `\x1f`, `\x7F`}
 
 var classEscapes = []string{`\d`, `\D`, `\w`, `\W`, `\s`, `\S`}
 
@@ -247,7 +247,7 @@ func allStrings(alpha []string, n int) []string {
 var std4 = allStrings(smallAlphabet, 4) // 341
 var std5 = allStrings(smallAlphabet, 5) // 1365
 
-var wideAlphabet = []string{"a", "b", "c", "\n", "a", "b", "c", "-", "A", "B", "C", " ", "1", "_", "\r", "\t", "\v", "é", " ", "/", ".", "\x00", "]"}
+var wideAlphabet = []string{"a", "b", "c", "\n", "a", "b", "c", "-", "A", "B", "C", " ", "1", "_", "\r", "\t", "\v", "é", " ", "/", ".", "\x00", "]", "\x10", "\x1a", "\x01", "\x1f", "\x7f"}
 
 func randString(r *gen.Rand, alpha []string, lo, hi int) string {
 	n := r.Range(lo, hi)
